@@ -171,12 +171,22 @@ func Std(kind string, prefix int, data []byte, scratchDir string) (r io.Reader, 
 		if err == nil {
 			_, _ = f.Write(all)
 			_, _ = f.Seek(int64(prefix), io.SeekStart)
-			return f, func() int { return -1 }, func() { f.Close(); os.Remove(f.Name()) }
+			return f, func() int {
+				if pos, err := f.Seek(0, io.SeekCurrent); err == nil {
+					return len(all) - int(pos)
+				}
+				return -1
+			}, func() { f.Close(); os.Remove(f.Name()) }
 		}
 	case "io.SectionReader":
 		sr := io.NewSectionReader(bytes.NewReader(all), 0, int64(len(all)))
 		_, _ = sr.Seek(int64(prefix), io.SeekStart)
-		return sr, func() int { return -1 }, cleanup
+		return sr, func() int {
+			if pos, err := sr.Seek(0, io.SeekCurrent); err == nil {
+				return len(all) - int(pos)
+			}
+			return -1
+		}, cleanup
 	}
 	br := bytes.NewReader(all)
 	_, _ = br.Seek(int64(prefix), io.SeekStart)
